@@ -186,9 +186,6 @@ func (x *Exec) builtin(st *State, fr *frame, b *ssa.Builtin, cc *ssa.CallCommon,
 				for kx, v := range oc.Cells {
 					nc.Cells[kx] = v
 				}
-				if oc.Sym && oc.Leaves == nil {
-					subsetf("append to a symbolic slice of pointers/interfaces")
-				}
 				st.arrs[n] = nc
 			} else {
 				x.copyQuantified(st, n, "0", sl.Arr, sl.Off, sl.Len)
@@ -353,6 +350,10 @@ func (x *Exec) applyContract(st *State, fr *frame, con *Contract, name string, s
 			subsetf("callee %s has ghost parameter %s that the caller does not provide", name, g.Name)
 		}
 	}
+	// ghost variables of the callee: their final values are some (unknown) values for the caller
+	for _, gv := range con.GhostVars {
+		env.vars[gv.Name] = Sc{s.declare(s.fresh("callee.ghostvar:"+gv.Name), gv.Sort), gv.Sort}
+	}
 	pre := st
 	env.cur, env.old = st, st
 	x.nPre[name]++
@@ -361,6 +362,9 @@ func (x *Exec) applyContract(st *State, fr *frame, con *Contract, name string, s
 		x.oblig(&Obligation{Name: fmt.Sprintf("pre@%s#%d.%s", shortName(name), x.nPre[name], r.Label), Kind: "pre", Label: r.Label,
 			Hyps: append([]string(nil), st.pc...), Goal: goal, Trace: strings.Join(st.trace, " "), Src: r.Src})
 		st.assume(goal)
+	}
+	for _, pc := range con.Panics {
+		x.assumeOrPanic(st, fr, env.term(pc.Sx), "panic@"+shortName(name)+"."+pc.Label)
 	}
 	pre = st.Clone()
 	// havoc the footprint
